@@ -503,3 +503,14 @@ Proof.
 Qed.
 Theorem rfc1035_names_compress : forall m vs, rfc1035_compressed m = true -> all_names_compress (layout_for m vs) = true.
 Proof. intros m vs H. destruct m; try discriminate; reflexivity. Qed.
+
+(* the item loop stops exactly at the end of its data *)
+Lemma parse_items_end : forall fuel k d p prev its p', p <= len d -> parse_items fuel k d p prev = Ok (its, p') -> p' = len d.
+Proof.
+  induction fuel as [|f IH]; intros k d p prev its p' Hp H; cbn [parse_items] in H; [discriminate|].
+  destruct (len d <=? p) eqn:E; [injection H as _ <-; lia|].
+  pose proof (parse_item_safe k d p prev Hp) as S.
+  destruct (parse_item k d p prev) as [[it p1]|e|s|]; try discriminate.
+  destruct (parse_items f k d p1 (Some (fst it))) as [[r p2]|e|s|] eqn:Er; try discriminate.
+  injection H as _ <-. eapply IH; [|exact Er]. lia.
+Qed.
